@@ -272,10 +272,16 @@ func replayRun(t *testing.T, rf *ReplayFile, trace []int, fn PropFn, keep bool) 
 	src.Keep = keep
 	r := NewRun(rf.Property, rf.Seed, src)
 	r.Tier = rf.Tier
+	// while shrinking, a candidate that runs into a listed finding is not the violation being minimised (plain
+	// replay of a finding's own file must still show it: the driver passes the list only to the minimiser)
+	r.Known = replayKnown
 	r.KeepLog = keep
 	Exec(t, r, fn)
 	return r
 }
+
+// replayKnown: signatures of listed findings, set by the minimiser only.
+var replayKnown map[string]bool
 
 // replay re-executes a replay file; prints REPLAY-VIOLATION oracle=<..> sig=<..> or REPLAY-CLEAN.
 func replay(t *testing.T, engine, prop string, fn PropFn) {
